@@ -269,9 +269,12 @@ class Tt3Sim(SimBase):
     000Bh (read) and 0009h (read/write) without encryption.  Written from the
     FeliCa command formats: Polling, Read/Write Without Encryption with its
     own service/block list parsing; per-command block limits; status flags
-    FFh/A1h-A8h for illegal lists.  mem is a flat list, block b at b*16."""
+    FFh/A1h-A8h for illegal lists.  mem is a flat list, block b at b*16.
+    standard=True adds the key-less commands of a FeliCa Standard card (see
+    execute_standard)."""
 
-    def __init__(self, mem, idm, pmm, max_read=15, max_write=13, sys=0x12FC):
+    def __init__(self, mem, idm, pmm, max_read=15, max_write=13, sys=0x12FC,
+                 standard=False):
         SimBase.__init__(self)
         self.mem = mem
         self.idm = list(idm)
@@ -279,6 +282,16 @@ class Tt3Sim(SimBase):
         self.max_read = max_read
         self.max_write = max_write
         self.sys = sys
+        # standard=True: a FeliCa Standard / Mobile FeliCa card (FeliCa Card
+        # User's Manual, Excerpted Edition) with the additional commands
+        # Request Service (02h), Request Response (04h), Search Service Code
+        # (0Ah) and Request System Code (0Ch).  File system: the one system
+        # `sys`, area 0 (0000h..FFFEh) and the two NDEF services 0009h /
+        # 000Bh (random service, read/write and read only, without key).
+        # The card stays in Mode 0 (no authentication commands).
+        self.standard = standard
+        self.nodes = [(0x0000, 0xFFFE), (0x0009,), (0x000B,)]
+        self.mode = 0
 
     def is_write(self, cmd):
         return len(cmd) > 1 and cmd[1] == 0x08
@@ -373,7 +386,45 @@ class Tt3Sim(SimBase):
                 self.mem[num * 16:num * 16 + 16] = new
                 self.log.append(("write", num))
             return self._rsp(0x09, [0, 0])
+        if self.standard:
+            rsp = self.execute_standard(code, d)
+            if rsp is not None:
+                return rsp
         raise nfc.clf.TimeoutError("unsupported command")
+
+    def execute_standard(self, code, d):
+        """commands of the FeliCa Standard command set that need no key;
+        d = command data behind the IDm.  A malformed command gets no answer"""
+        if code == 0x04 and len(d) == 0:
+            # Request Response -> 05h IDm Mode
+            self.log.append(("request_response", self.mode))
+            return self._rsp(0x05, [self.mode])
+        if code == 0x0C and len(d) == 0:
+            # Request System Code -> 0Dh IDm n, n system codes (big endian)
+            self.log.append(("request_system_code", 0))
+            return self._rsp(0x0D, [1, self.sys >> 8, self.sys & 0xFF])
+        if code == 0x0A and len(d) == 2:
+            # Search Service Code, index little endian -> area code + end
+            # service code (area), service code (service), FFFFh (no more)
+            index = d[0] | (d[1] << 8)
+            self.log.append(("search_service_code", index))
+            if index >= len(self.nodes):
+                return self._rsp(0x0B, [0xFF, 0xFF])
+            body = []
+            for v in self.nodes[index]:
+                body += [v & 0xFF, v >> 8]
+            return self._rsp(0x0B, body)
+        if code == 0x02 and len(d) >= 1 and 1 <= d[0] <= 32 and len(d) == 1 + 2 * d[0]:
+            # Request Service -> 03h IDm n, n key versions (little endian);
+            # FFFFh for a node that does not exist, 0000h for one without key
+            self.log.append(("request_service", d[0]))
+            known = [n[0] for n in self.nodes]
+            body = [d[0]]
+            for i in range(d[0]):
+                node = d[1 + 2 * i] | (d[2 + 2 * i] << 8)
+                body += [0x00, 0x00] if node in known else [0xFF, 0xFF]
+            return self._rsp(0x03, body)
+        return None
 
 
 def tt3_target(sim, with_sys=True):
